@@ -11,7 +11,22 @@ import (
 	"sort"
 	"strings"
 
+	"github.com/blinklabs-io/gouroboros/muxer"
 	"github.com/blinklabs-io/gouroboros/protocol"
+	"github.com/blinklabs-io/gouroboros/protocol/blockfetch"
+	"github.com/blinklabs-io/gouroboros/protocol/chainsync"
+	"github.com/blinklabs-io/gouroboros/protocol/handshake"
+	"github.com/blinklabs-io/gouroboros/protocol/keepalive"
+	"github.com/blinklabs-io/gouroboros/protocol/leiosfetch"
+	"github.com/blinklabs-io/gouroboros/protocol/leiosnotify"
+	"github.com/blinklabs-io/gouroboros/protocol/leiosvotes"
+	"github.com/blinklabs-io/gouroboros/protocol/localmessagenotification"
+	"github.com/blinklabs-io/gouroboros/protocol/localmessagesubmission"
+	"github.com/blinklabs-io/gouroboros/protocol/localstatequery"
+	"github.com/blinklabs-io/gouroboros/protocol/localtxmonitor"
+	"github.com/blinklabs-io/gouroboros/protocol/localtxsubmission"
+	"github.com/blinklabs-io/gouroboros/protocol/peersharing"
+	"github.com/blinklabs-io/gouroboros/protocol/txsubmission"
 )
 
 // decoder kinds (must match GV.Model.VersionData.Kind.ofNat):
@@ -203,5 +218,47 @@ func init() {
 		}
 		fmt.Fprintln(w, "]")
 		fmt.Fprintln(w, "end GV.Gen.Versions")
+	})
+}
+
+// g2ProtoIds: mini-protocol names and muxer ids, from the packages' own constants.
+func g2ProtoIds() [][2]any {
+	return [][2]any{
+		{handshake.ProtocolName, uint16(handshake.ProtocolId)},
+		{chainsync.ProtocolName + "/ntn", chainsync.ProtocolIdNtN},
+		{chainsync.ProtocolName + "/ntc", chainsync.ProtocolIdNtC},
+		{blockfetch.ProtocolName, blockfetch.ProtocolId},
+		{txsubmission.ProtocolName, txsubmission.ProtocolId},
+		{localtxsubmission.ProtocolName, localtxsubmission.ProtocolId},
+		{localstatequery.ProtocolName, localstatequery.ProtocolId},
+		{keepalive.ProtocolName, keepalive.ProtocolId},
+		{localtxmonitor.ProtocolName, localtxmonitor.ProtocolId},
+		{peersharing.ProtocolName, uint16(peersharing.ProtocolId)},
+		{leiosnotify.ProtocolName, leiosnotify.ProtocolId},
+		{leiosfetch.ProtocolName, leiosfetch.ProtocolId},
+		{leiosvotes.ProtocolName, leiosvotes.ProtocolId},
+		{localmessagesubmission.ProtocolName, uint16(localmessagesubmission.ProtocolID)},
+		{localmessagenotification.ProtocolName, uint16(localmessagenotification.ProtocolID)},
+	}
+}
+
+func init() {
+	registerDump("ConnProtocols", func(w *bufio.Writer) {
+		fmt.Fprintln(w, "namespace GV.Gen.ConnProtocols")
+		fmt.Fprintln(w, "/-- (protocol name, muxer protocol id) from the mini-protocol packages' constants -/")
+		fmt.Fprintln(w, "def ids : List (String × Nat) := [")
+		for i, p := range g2ProtoIds() {
+			sep := ","
+			if i == len(g2ProtoIds())-1 {
+				sep = ""
+			}
+			fmt.Fprintf(w, "  (%q, %d)%s\n", p[0], p[1], sep)
+		}
+		fmt.Fprintln(w, "]")
+		fmt.Fprintf(w, "def responseFlag : Nat := %d\n", 0x8000)
+		fmt.Fprintf(w, "def muxModeInitiator : Nat := %d\n", muxer.DiffusionModeInitiator)
+		fmt.Fprintf(w, "def muxModeResponder : Nat := %d\n", muxer.DiffusionModeResponder)
+		fmt.Fprintf(w, "def muxModeBoth : Nat := %d\n", muxer.DiffusionModeInitiatorAndResponder)
+		fmt.Fprintln(w, "end GV.Gen.ConnProtocols")
 	})
 }
